@@ -72,6 +72,8 @@ fn norm_ev(e: &Ev) -> Ev {
 
 /// Expected elements with the reference's meta information and the "after failure" context.
 pub struct ExpEl {
+    /// for El::End: end of input had already been acted upon earlier
+    pub end_already_done: bool,
     pub el: El,
     pub meta: Option<EvMeta>,
     /// an InvalidToken error occurred earlier and no action has switched rule sets since
@@ -90,6 +92,7 @@ pub fn exp_elements(h: &History) -> Vec<ExpEl> {
             *set_before = m.set;
             if m.logged {
                 v.push(ExpEl {
+                    end_already_done: false,
                     el: El::Ev(norm_ev(&h.evs[i])),
                     meta: Some(m.clone()),
                     after_failure: *after_failure,
@@ -106,6 +109,7 @@ pub fn exp_elements(h: &History) -> Vec<ExpEl> {
         push_evs(&mut v, prev, end, &mut after_failure, &mut set_before);
         prev = end;
         v.push(ExpEl {
+            end_already_done: false,
             el: El::It(it.clone()),
             meta: None,
             after_failure,
@@ -119,6 +123,7 @@ pub fn exp_elements(h: &History) -> Vec<ExpEl> {
     push_evs(&mut v, prev, h.evs.len(), &mut after_failure, &mut set_before);
     if h.final_done {
         v.push(ExpEl {
+            end_already_done: h.end_kind == 2,
             el: El::End,
             meta: None,
             after_failure,
@@ -174,6 +179,14 @@ pub fn first_divergence(obs: &[El], exp: &[ExpEl], info: &SpecInfo) -> Option<Di
         let scan_props = |props: &mut Vec<&'static str>, obs_rule: Option<u32>, at_eoi: bool| {
             if after_failure {
                 add(props, "C08");
+                // re-entering a rule set without a switch also breaks rule-set isolation
+                if let Some(r) = obs_rule {
+                    if let Some(s) = info.rule_set.get(r as usize) {
+                        if *s != set_before {
+                            add(props, "C03");
+                        }
+                    }
+                }
                 return;
             }
             if let Some(r) = obs_rule {
@@ -285,8 +298,16 @@ pub fn first_divergence(obs: &[El], exp: &[ExpEl], info: &SpecInfo) -> Option<Di
                 }
             },
             (Some(El::End), Some(_)) | (Some(_), Some(El::End)) | (None, Some(El::End)) | (Some(El::End), None) => {
-                if after_failure {
+                let already = e.map(|e| e.end_already_done).unwrap_or(false);
+                if already {
+                    // end of input had been acted upon (by a `$` match or an error that saw it):
+                    // every further call must give None
+                    add(&mut props, "C05");
+                } else if after_failure {
+                    // expected None in Init but the lexer is somewhere else (or vice versa): the
+                    // failure did not (durably) reset the rule set
                     add(&mut props, "C08");
+                    add(&mut props, "C03");
                 } else {
                     add(&mut props, "C05");
                 }
@@ -299,7 +320,14 @@ pub fn first_divergence(obs: &[El], exp: &[ExpEl], info: &SpecInfo) -> Option<Di
                     _ => None,
                 };
                 scan_props(&mut props, r, false);
-                what = "InvalidToken versus a match";
+                if r.is_some() {
+                    // an action ran although no rule matches here: it belongs to an abandoned
+                    // (stale) candidate
+                    add(&mut props, "C10");
+                    what = "an action ran where nothing matches (InvalidToken expected)";
+                } else {
+                    what = "InvalidToken versus a match";
+                }
             }
             (Some(El::Ev(oe)), Some(El::It(_))) => {
                 scan_props(&mut props, Some(oe.rule), false);
